@@ -24,7 +24,20 @@ CLAIMS = {
         design_ref='DESIGN.md 5 C06'),
 }
 
+CLAIMS['C04'] = dict(
+    text='Unbounded proof: the real generic greatest_lower_bound is verified against the statement of C04 over an abstract key function (nothing iff every '
+         'key lies after the query; otherwise the greatest key not after it, and the first element on an exact hit); SourceMap::lookup_token instantiates it for '
+         '(dst_line, dst_col); SourceMap::new is proved to return a sorted permutation; TokenIter::next is verified against the iteration model '
+         '"what remains is get_token(next_idx), get_token(next_idx+1), ..." through vstd\'s prophetic iterator laws; every other mutator carries a tokens frame.',
+    note=_TB + 'slice::binary_search_by_key and sort_unstable_by_key are assumed by contract (DESIGN.md 3.3).',
+    design_ref='DESIGN.md 5 C04')
+CLAIMS['C07'] = dict(
+    text='Unbounded proof of the lookup half (offset = col - dst_col exactly when the token is a range token on the queried line, else 0; get_src_col adds it '
+         'saturating; no underflow) and of the range-bitfield writer/reader pair against a reference bitfield encoding.',
+    note=_TB + 'bitvec is behind assumed contracts (LSB-first, little-endian).',
+    design_ref='DESIGN.md 5 C07')
+
 NOT_APPLICABLE = {p: 'under construction in this session (contract-based check being built; see DESIGN.md decision table)' for p in
-                  ['C01', 'C02', 'C03', 'C04', 'C05', 'C07', 'C08', 'C09', 'C10', 'C12', 'C13', 'C14', 'C15', 'C17', 'C18', 'C19', 'C20']}
+                  ['C01', 'C02', 'C03', 'C05', 'C08', 'C09', 'C10', 'C12', 'C13', 'C14', 'C15', 'C17', 'C18', 'C19', 'C20']}
 NOT_APPLICABLE['C16'] = ('concurrency (interleavings of threads sharing a SourceView over std Mutex / atomics): Kani has no thread support and Verus needs '
                          'its own permission-typed primitives, so no contract within reach of the installed verifiers expresses or decides it')
